@@ -18,6 +18,7 @@ fn main() {
         "C02-cluster" => cluster::c02_cluster(&args),
         "C06" => cluster::c06(&args),
         "C08-cluster" => cluster::c08_cluster(&args),
+        "C08-actor" => actor::c08_actor(&args),
         "C16-e2e" => cluster::c16_e2e(&args),
         "C02" => actor::c02(&args),
         "C07" => actor::c07(&args),
